@@ -311,7 +311,7 @@ func (in *Interp) convert(v Value, from, to types.Type) Value {
 			case SliceV: // []byte -> string
 				b := make([]*Term, x.n)
 				for i := 0; i < x.n; i++ {
-					b[i] = x.arr[x.off+i].v.(*Term)
+					b[i] = x.arr[x.off+i].get().(*Term)
 				}
 				return StrV{b}
 			case *Term: // rune/int -> string
@@ -389,6 +389,23 @@ func (in *Interp) convert(v Value, from, to types.Type) Value {
 		}
 		return v
 	case *types.Pointer:
+		// unsafe.Pointer -> *T: reinterpretation of scalar cells of another width (little-endian)
+		if p, ok := v.(PtrV); ok && p.loc != nil && p.loc.sub == nil {
+			if bt, isT := p.loc.get().(*Term); isT {
+				vw := widthOf(t.Elem())
+				if vw != 0 && bt.w != 0 && vw != bt.w {
+					base := []*Loc{p.loc}
+					if p.arr != nil {
+						base = p.arr[p.idx:]
+					}
+					if vw > bt.w && len(base)*bt.w < vw {
+						in.abort("panic", "pointer cast reads beyond the underlying allocation")
+					}
+					vl := &Loc{view: &viewCell{base: base, bw: bt.w, vw: vw, idx: 0}}
+					return PtrV{loc: vl, arr: p.arr, idx: p.idx}
+				}
+			}
+		}
 		return v
 	}
 	in.abort("unsupported", "convert "+from.String()+" -> "+to.String())
